@@ -11,6 +11,8 @@ CONSTANTS
   CRProg <- QB_CR
   Forms = {"fresh"}
   Colls = {}
+  LAs <- NoLA_QB
+  DropOn = FALSE
   QuitOn = FALSE
   QuitDeferred = FALSE
   DefCap = 0
@@ -28,4 +30,6 @@ PROPERTY NeverEarly
 PROPERTY LifeLogged
 PROPERTY CROnce
 PROPERTY DepsFixed
+PROPERTY OptsFixed
+INVARIANT OptsOK
 CHECK_DEADLOCK FALSE
